@@ -26,49 +26,7 @@ func runC14(c *Ctx) {
 	c.Trust("go/ssa", "gammazero/chanqueue (unbounded, order preserving)")
 
 	// ---- N1 listener channel = input side of an unbounded queue --------------------------
-	nReg := 0
-	{
-		for _, ss := range c.SendSites(dagsyncPkg) {
-			if cx := strip(ss.Chan); cx.Op != "field" || cx.Name != "addEventChan" {
-				continue
-			}
-			g, in, pos := ss.Fn, ss.At, ss.Pos
-			nReg++
-			x := ss.Val
-			if r := c.ReachingStore(x, in); r != nil {
-				x = r
-			}
-			key := c.short(topFunc(g).String()) + " › registered channel"
-			b, ok := Match(CallLike([]string{"chanqueue.ChanQueue[", ").In["}, BindP("q", CallLike([]string{"chanqueue.New["}))), x)
-			isIn := ok && strings.Contains(strip(x).Name, ").In[")
-			if !isIn {
-				c.Bad("C14.N1-unbounded-listener", key, pos, "channel registered with the distributor is not the input side of a chanqueue: "+x.String())
-				continue
-			}
-			// New called with no options (variadic slice is nil)
-			noOpts := true
-			for _, a := range b["q"].Args {
-				if a.Op != "nil" {
-					noOpts = false
-				}
-			}
-			c.Check(noOpts, "C14.N1-unbounded-listener", key, pos, "listener channel is In() of chanqueue.New() with no capacity option (unbounded)",
-				"listener queue is created with options (bounded or ring): a slow listener blocks the distributor or loses events")
-			// the listener reads Out() of the same queue
-			rets := 0
-			for _, blk := range topFunc(g).Blocks {
-				if r, ok := blk.Instrs[len(blk.Instrs)-1].(*ssa.Return); ok && len(r.Results) > 0 {
-					rx := c.RetX(r, 0)
-					if _, ok := Match(CallLike([]string{"chanqueue.ChanQueue[", ").Out["}, Is(b["q"])), rx); ok {
-						rets++
-					} else {
-						rets -= 100
-					}
-				}
-			}
-			c.Check(rets > 0, "C14.N1-unbounded-listener", key+" › returned channel", pos, "every return hands out Out() of the same queue", "a return path hands out a channel that is not the output side of the registered queue")
-		}
-	}
+	listenerQueuesUnbounded(c, "C14.N1-unbounded-listener")
 	c.Floor("C14.N1-unbounded-listener", 2)
 
 	// ---- N3b the count an event carries is the number of blocks handed to the hook during that sync ---------------
@@ -80,6 +38,12 @@ func runC14(c *Ctx) {
 		c.Unk("C14.N3-count-accumulates", "dagsync › hook wrapper", token.NoPos, "per-block counter increment not found")
 	}
 	c.Floor("C14.N3-count-accumulates", 1)
+	// …and the blocks handed to the hook are those of this traversal alone: the list replayed is the result of this
+	// sync's own walk (on its err == nil edge), not state of the sync client that survives a failed sync
+	hookAfterWalk(c, "C14.N3-count-is-this-syncs-blocks")
+	// …counted by the one handler of that publisher (a second handler overwrites and deletes the count hook)
+	handlerExpiryRefreshed(c, "C14.N3-one-handler-per-publisher")
+	c.Floor("C14.N3-count-is-this-syncs-blocks", 1)
 
 	// ---- N1b registration is a handshake: the add/remove channels are unbuffered, so OnSyncFinished returns only
 	// after the distributor has taken the listener (a buffered channel lets a sync that finishes right after
@@ -407,4 +371,55 @@ func readOnlySliceFunc(fn *ssa.Function) bool {
 		return true
 	}
 	return false
+}
+
+// listenerQueuesUnbounded: the channel a listener registers with the
+// distributor is the input side of an option-less (unbounded) chanqueue whose
+// output side the listener reads. Shared by C14 (no event is lost or delayed
+// behind a slow listener) and C15 (the distributor, and with it every sync
+// and Close, never blocks on a listener that does not read).
+func listenerQueuesUnbounded(c *Ctx, rule string) {
+	nReg := 0
+	{
+		for _, ss := range c.SendSites(dagsyncPkg) {
+			if cx := strip(ss.Chan); cx.Op != "field" || cx.Name != "addEventChan" {
+				continue
+			}
+			g, in, pos := ss.Fn, ss.At, ss.Pos
+			nReg++
+			x := ss.Val
+			if r := c.ReachingStore(x, in); r != nil {
+				x = r
+			}
+			key := c.short(topFunc(g).String()) + " › registered channel"
+			b, ok := Match(CallLike([]string{"chanqueue.ChanQueue[", ").In["}, BindP("q", CallLike([]string{"chanqueue.New["}))), x)
+			isIn := ok && strings.Contains(strip(x).Name, ").In[")
+			if !isIn {
+				c.Bad(rule, key, pos, "channel registered with the distributor is not the input side of a chanqueue: "+x.String())
+				continue
+			}
+			// New called with no options (variadic slice is nil)
+			noOpts := true
+			for _, a := range b["q"].Args {
+				if a.Op != "nil" {
+					noOpts = false
+				}
+			}
+			c.Check(noOpts, rule, key, pos, "listener channel is In() of chanqueue.New() with no capacity option (unbounded)",
+				"listener queue is created with options (bounded or ring): a slow listener blocks the distributor or loses events")
+			// the listener reads Out() of the same queue
+			rets := 0
+			for _, blk := range topFunc(g).Blocks {
+				if r, ok := blk.Instrs[len(blk.Instrs)-1].(*ssa.Return); ok && len(r.Results) > 0 {
+					rx := c.RetX(r, 0)
+					if _, ok := Match(CallLike([]string{"chanqueue.ChanQueue[", ").Out["}, Is(b["q"])), rx); ok {
+						rets++
+					} else {
+						rets -= 100
+					}
+				}
+			}
+			c.Check(rets > 0, rule, key+" › returned channel", pos, "every return hands out Out() of the same queue", "a return path hands out a channel that is not the output side of the registered queue")
+		}
+	}
 }
